@@ -44,13 +44,18 @@ def _load_cache():
 def judge(programs, nproc=16, use_cache=True):
     """programs: list of structured programs. Returns list of TLC results (same order)."""
     _load_cache()
-    keys = [hashlib.sha256(progs.canon(p).encode()).hexdigest() for p in programs]
+    def sem_key(p):
+        return json.dumps({k: p[k] for k in ("consts", "facts", "ads", "rules", "queries", "evidence")}, sort_keys=True)
+    keys = [hashlib.sha256(sem_key(p).encode()).hexdigest() for p in programs]
     todo = []
     seen = set()
     for i, (p, k) in enumerate(zip(programs, keys)):
         if (not use_cache or k not in _CACHE) and k not in seen:
             seen.add(k)
             q = {kk: p[kk] for kk in ("consts", "facts", "ads", "rules", "queries", "evidence")}
+            q = json.loads(json.dumps(q))
+            for r in q["rules"]:
+                r.pop("x", None)
             q["id"] = len(todo) + 1
             todo.append((k, q))
     if todo:
